@@ -10,6 +10,8 @@ REPO = os.environ.get("WWV_REPO", "/repo")   # a dev worktree may stand in for /
 
 
 FIRST_MISSED = {
+    "C08m": "C08-B3 the same-block merge read lies on EVERY path to the UNBOND.save (merge moved into the partial-unbond branch)",
+    "C17m": "C17-P4 always-when-named: with feature_toggle present no path reaches CONFIG.save without assigning it (toggle chained as else-if behind pool_fees)",
     "C12j": "C12-L3 the refund's funded total comes from the LAST asset_history entry, not from the epoch-bounded lookup helper",
     "C12l": "C12-L1 the cumulative total recorded by an expansion is computed from reads made after the reset",
     "C13j": "C13-W2 the snapshot of the previous position amount is taken before the amount is increased",
